@@ -51,7 +51,7 @@ func init() {
 type rawPeer struct {
 	conn    *grpc.ClientConn
 	cancel  context.CancelFunc
-	session string
+	session atomic.Value
 	recvd   atomic.Int64
 }
 
@@ -86,7 +86,7 @@ func startRawPeer(addr, mode, listen string) (*rawPeer, error) {
 	go func() {
 		md, _ := st.Header()
 		if ids := md.Get("session-id"); len(ids) > 0 {
-			p.session = ids[0]
+			p.session.Store(ids[0])
 		}
 		var last uint64
 		for {
@@ -100,7 +100,8 @@ func startRawPeer(addr, mode, listen string) (*rawPeer, error) {
 					last = e.SequenceNumber
 				}
 			}
-			actx := metadata.AppendToOutgoingContext(ctx, "session-id", p.session)
+			sid, _ := p.session.Load().(string)
+			actx := metadata.AppendToOutgoingContext(ctx, "session-id", sid)
 			switch mode {
 			case "slow":
 				time.Sleep(time.Second)
@@ -115,8 +116,8 @@ func startRawPeer(addr, mode, listen string) (*rawPeer, error) {
 	if mode == "nack" {
 		go func() {
 			for ctx.Err() == nil {
-				if p.session != "" {
-					actx := metadata.AppendToOutgoingContext(ctx, "session-id", p.session)
+				if sid, _ := p.session.Load().(string); sid != "" {
+					actx := metadata.AppendToOutgoingContext(ctx, "session-id", sid)
 					cl.NegativeAcknowledge(actx, &rp.Nack{MissingFromSequence: 1})
 				}
 				time.Sleep(25 * time.Millisecond)
@@ -206,11 +207,12 @@ func runC15(c *core.Ctx, res *core.Result) {
 		peers = append(peers, p)
 	case "flapping":
 		fwg.Add(1)
+		frr := r.Derive(4242)
 		go func() {
 			defer fwg.Done()
 			for !flapStop.Load() {
 				if p, err := startRawPeer(paddr, "ack", badListen); err == nil {
-					time.Sleep(time.Duration(2+r.Intn(6)) * time.Millisecond)
+					time.Sleep(time.Duration(2+frr.Intn(6)) * time.Millisecond)
 					p.stop()
 				}
 			}
@@ -371,6 +373,36 @@ loop:
 }
 
 // blockedKevoStacks returns the stacks of goroutines that are parked inside kevo code.
+// replicationStacks lists every goroutine that is inside pkg/replication (function names only).
+func replicationStacks() string {
+	buf := make([]byte, 8<<20)
+	n := runtime.Stack(buf, true)
+	var out []string
+	for _, g := range strings.Split(string(buf[:n]), "\n\n") {
+		if !strings.Contains(g, "KevoDB/kevo/pkg/replication") {
+			continue
+		}
+		var keep []string
+		for _, l := range strings.Split(g, "\n") {
+			if strings.HasPrefix(l, "\t") {
+				continue
+			}
+			if i := strings.LastIndex(l, "("); i > 0 && !strings.HasPrefix(l, "goroutine") {
+				l = l[:i]
+			}
+			keep = append(keep, "  "+strings.TrimPrefix(l, "github.com/KevoDB/kevo/"))
+			if len(keep) > 14 {
+				break
+			}
+		}
+		out = append(out, strings.Join(keep, "\n"))
+		if len(out) >= 30 {
+			break
+		}
+	}
+	return strings.Join(out, "\n")
+}
+
 func blockedKevoStacks() string {
 	buf := make([]byte, 4<<20)
 	n := runtime.Stack(buf, true)
